@@ -944,6 +944,14 @@ func registerIntercepts(g *Engine) {
 		v, _ := newTimer(e, fn)
 		return v
 	}
+	// a ticker is a timer channel that can be ready repeatedly (the same
+	// scripted budget of ticks); Stop/Reset have no observable effect here
+	ic["time.NewTicker"] = func(e *Exec, fn *ssa.Function, a []Value) Value {
+		v, _ := newTimer(e, fn)
+		return v
+	}
+	ic["(*time.Ticker).Stop"] = func(e *Exec, fn *ssa.Function, a []Value) Value { return nil }
+	ic["(*time.Ticker).Reset"] = func(e *Exec, fn *ssa.Function, a []Value) Value { return nil }
 	ic["time.AfterFunc"] = func(e *Exec, fn *ssa.Function, a []Value) Value {
 		v, l := newTimer(e, fn)
 		e.afterFuncs = append(e.afterFuncs, afterFunc{l, a[1].(FuncVal), true})
